@@ -98,7 +98,17 @@ class LibState:
         import types
         self.slots = []      # (container object, pristine deep copy)
         self.caches = []
+        self.scalars = []    # (owner module or class, attribute name, pristine immutable value)
         seen = set()
+        simple = (int, float, str, bool, bytes, tuple, frozenset, type(None))
+
+        def note_scalar(owner, k, v):
+            if isinstance(v, simple) and not k.startswith("__"):
+                try:
+                    hash(v)
+                except TypeError:
+                    return
+                self.scalars.append((owner, k, v))
 
         def note(obj):
             if isinstance(obj, (dict, list, set)) and id(obj) not in seen and obj is not B.Node.store:
@@ -138,10 +148,12 @@ class LibState:
                             scan_function(raw)
                         else:
                             note(raw)
+                            note_scalar(v, ck, raw)
                 elif callable(v) and getattr(v, "__module__", None) == name:
                     scan_function(v)
                 elif not isinstance(v, types.ModuleType):
                     note(v)
+                    note_scalar(mod, k, v)
         fn = getattr(B, "to_20210209", None)
         if fn is not None:
             scan_function(fn)
@@ -160,6 +172,18 @@ class LibState:
                 n += 1
         for c in self.caches:
             c.cache_clear()
+        # counters and flags kept in module-level or class-level names
+        for owner, k, v in self.scalars:
+            try:
+                cur = getattr(owner, k)
+            except AttributeError:
+                cur = v
+            if cur is not v and cur != v or type(cur) is not type(v):
+                try:
+                    setattr(owner, k, v)
+                    n += 1
+                except Exception:       # noqa: BLE001
+                    pass
         return n
 
 
